@@ -123,15 +123,22 @@ func Harness_C12_CleanSessionDetails() {
 	hasTransport := vBool("hasTransport")
 	hasAuth := vBool("hasAuth")
 	transportAsMap := vBool("transport.asPlainMap")
+	otherItems := vBool("transport.hasOtherItems") // auth may be the only item of transport
 	if hasTransport {
 		if transportAsMap {
-			t := map[string]any{"type": "websocket"}
+			t := map[string]any{}
+			if otherItems {
+				t["type"] = "websocket"
+			}
 			if hasAuth {
 				t["auth"] = map[string]any{"cookie": "secret"}
 			}
 			details["transport"] = t
 		} else {
-			t := wamp.Dict{"type": "websocket"}
+			t := wamp.Dict{}
+			if otherItems {
+				t["type"] = "websocket"
+			}
 			if hasAuth {
 				t["auth"] = wamp.Dict{"cookie": "secret"}
 			}
